@@ -97,13 +97,32 @@ def enc_terms(terms, untagged=False):
     return [[c, [[tag, st] for tag, st in g]] for c, g in terms]
 
 
+def model_cost(m, mix):
+    """rough number of ring multiplications the exact model needs (outputs x terms x permanent sizes)"""
+    import math
+    cost = 0
+    for _, terms in mix:
+        shapes = {}
+        for _, g in terms:
+            shapes.setdefault(tuple((tag, sum(st)) for tag, st in g), 0)
+            shapes[tuple((tag, sum(st)) for tag, st in g)] += 1
+        for shape in shapes:
+            outs = 1
+            per = 0
+            for _, n in shape:
+                outs *= math.comb(m + n - 1, n)
+                per += m ** n * max(n, 1)
+            cost += outs * len(terms) * per
+    return cost
+
+
 def run(ctx):
     import perceval as pcvl
     import numpy as np
     from perceval.simulators import Simulator
     from perceval.utils import SVDistribution, DensityMatrix
     rng = ctx.rng
-    N = ctx.n(90, 1500)
+    N = ctx.n(110, 1500)
     cases = []
     for i in range(N):
         r = rng.fork(i)
@@ -144,6 +163,9 @@ def run(ctx):
                 mix.append([Fraction(r.rint(1, 4)), [(QI(1), [(0, sb)])]])
         tot = sum(p for p, _ in mix)
         mix = [[p / tot, t] for p, t in mix]
+        if model_cost(m, mix) > (4000 if ctx.quick() else 40000):
+            ctx.count("generated-but-too-costly-for-the-exact-model")
+            continue
         cases.append((c, m, kind, untagged, mix))
     outs = ctx.model.run([(30, [m, c.U, [[p, enc_terms(t, u)] for p, t in mix]]) for c, m, kind, u, mix in cases])
     for (c, m, kind, untagged, mix), out in zip(cases, outs):
